@@ -43,6 +43,7 @@ func checkC18(c *Check) {
 	importRules(c, "C10", c10Recipients, map[string]bool{"R5": true}, "R17")
 	c.Rule("R18", "the queue and the pipeline keep the metadata object they were given: the original-recipient entries the pipeline records for the second and later recipients of a transaction (after the queue's delivery was started) are in the record the report is built from (C10.R3e)", 1)
 	importRules(c, "C10", checkC10, map[string]bool{"R3e": true}, "R18")
+	c18RequiredRecipientFields(c, "R19")
 	c.Rule("R12", "deliver: the error of Body / Commit is recorded for exactly the accepted recipients, the error of AddRcpt for exactly its recipient (a recipient's own refusal is what the report shows) (C01.R2)", 3)
 	{
 		sub := newCheck("C01", c.P, c.Tier)
